@@ -383,6 +383,9 @@ func randCatalog(rnd *rand.Rand, nRepos, nTags, nb, nm int, big bool) *Catalog {
 			if big && i == 1 {
 				pad = 140 * 1024
 			}
+			if big && i == 2 {
+				pad = 4*1024*1024 + 300*1024 // beyond any round limit a layer in between might apply
+			}
 			cat.addImage(id, pick(blobs), layers, subject, subjectType, nonce, "", pad)
 		case k < 16:
 			var ch [][2]string
